@@ -1443,6 +1443,56 @@ def _jschunk_bulk_shape(cx, rep, p):
             rep.undecided('bulk trailing line', c, 'unconditional pop of the last line')
 
 
+def _queue_model(cx, rep, p):
+    """the producer/consumer queue of the JS reader decided on every sequence of at most seven enqueue / dequeue operations: dequeue hands
+    out the records in the order they were enqueued and null exactly when none is waiting.  True when the exploration could be done."""
+    import itertools
+    from .. import absexec as AX
+    q = p.cls('rbql_csv', 'RecordQueue', required=False)
+    if q is None:
+        return False
+    ms = {m.name: m for m in q.body if isinstance(m, ast.FunctionDef)}
+    init, enq, deq = ms.get('__init__') or ms.get('constructor'), ms.get('enqueue'), ms.get('dequeue')
+    if init is None or enq is None or deq is None:
+        return False
+    bad = None
+    n = 0
+    try:
+        for ln in range(1, 8):
+            for ops in itertools.product('ED', repeat=ln):
+                selfv = AX.Abs('Self')
+                ex = AX.Explorer(p, 'rbql_csv', max_choices=1)
+                ex.cls = 'RecordQueue'
+                ex._script, ex._pos, ex.steps, ex.depth = [], 0, 0, 0
+                ex.run = AX.Run()
+                ex.call_fd(init, [selfv])
+                waiting, k = [], 0
+                for i, op in enumerate(ops):
+                    if op == 'E':
+                        k += 1
+                        r = AX.Abs('Rec', id='r%d' % k)
+                        waiting.append(r)
+                        ex.call_fd(enq, [selfv, r])
+                    else:
+                        got = ex.call_fd(deq, [selfv])
+                        want = waiting.pop(0) if waiting else None
+                        if got is not want and bad is None:
+                            bad = 'after the operations {} dequeue() gives {} instead of {}'.format(' '.join('enqueue' if o == 'E' else 'dequeue' for o in ops[:i + 1]), got.props['id'] if isinstance(got, AX.Abs) else repr(got), want.props['id'] if want is not None else 'null')
+                n += 1
+                if bad:
+                    break
+            if bad:
+                break
+    except (Undecided, AX.Cut, AX._NeedChoice, AX.Raised, KeyError, IndexError, TypeError) as e_:
+        import os
+        if os.environ.get('RBQL_VERIF_DEBUG'):
+            print('queue model gave up:', type(e_).__name__, e_)
+        return False
+    for k_ in ('record queue', 'record queue enqueue', 'record queue refill'):
+        rep.decide(bad is None, k_, deq, 'records leave the queue in arrival order ({} operation sequences)'.format(n), 'the producer/consumer queue does not deliver records in arrival order: ' + (bad or ''))
+    return True
+
+
 def _jschunk_rest(cx, rep, p, lines_decided=False):
     if not lines_decided:
         _jschunk_bulk_shape(cx, rep, p)
@@ -1452,6 +1502,8 @@ def _jschunk_rest(cx, rep, p, lines_decided=False):
     okd = len(disp) == 1 and isinstance(disp[0].value, ast.IfExp) and "== 'quoted_rfc'" in node_text(disp[0].value.test) and dotted(disp[0].value.body) == 'self.process_partial_rfc_record_line' and dotted(disp[0].value.orelse) == 'self.process_record_line_simple'
     rep.decide(okd, 'policy dispatch', disp[0] if disp else init, 'quoted_rfc -> multi-line aggregation, otherwise per-line', 'line processing is not dispatched as quoted_rfc -> multi-line aggregation / otherwise per-line')
     # queue is FIFO
+    if _queue_model(cx, rep, p):
+        return
     q = p.cls('rbql_csv', 'RecordQueue')
     deq = [m for m in q.body if isinstance(m, ast.FunctionDef) and m.name == 'dequeue'][0]
     rev = [c for c in ast.walk(deq) if isinstance(c, ast.Call) and isinstance(c.func, ast.Attribute) and c.func.attr == 'reverse']
